@@ -53,6 +53,12 @@ def make_case(prop, seed, i, tier):
         spec = G.gen_random(rng, G.profile(facility_rich=rng.random() < 0.3, p_auto=0.3))
         spec["sim"]["absence"] = absence_list(rng)
         spec["sim"]["auto_flag"] = rng.random() < 0.5
+        if i % 8 == 4:
+            # the same in-step clauses during a BACKWARD run (due-time padding tasks are automatic tasks);
+            # the monitor judges by the flag the caller passed
+            from .p_c08 import add_due_times
+            add_due_times(rng, spec)
+            return dict(prop=prop, i=i, kind="in-step-backward", spec=spec, due=rng.random() < 0.7, reverse=rng.random() < 0.5)
         if i % 8 == 2:
             # pause, edit per-resource absence lists in place, resume (one tracer over both calls)
             return dict(prop=prop, i=i, kind="edit-resume", spec=spec, k=rng.choice([1, 2, 3, 5]), eseed=rng.randrange(10 ** 9))
@@ -87,6 +93,19 @@ def run_case(case):
     if case["kind"] == "in-step":
         m, tr, err = forward(spec, lambda started: [M.MonC10()])
         res.absorb(tr, props=("C10",))
+        if err is not None:
+            res["aborted"] = err
+        res["nontrivial"] = res["counters"].get("C10.absence_steps_with_working_task", 0) > 0
+        return res
+    if case["kind"] == "in-step-backward":
+        I.install()
+        I.set_order(I.default_order(spec))
+        tr = I.Tracer([M.MonC10()])
+        tr.expected_auto_flag = bool(spec["sim"]["auto_flag"])
+        h = Hist(spec, tracer=tr)
+        err = h.do(["backward", case["due"], case["reverse"]])
+        res.absorb(tr, props=("C10",))
+        res.count("C10.backward_runs")
         if err is not None:
             res["aborted"] = err
         res["nontrivial"] = res["counters"].get("C10.absence_steps_with_working_task", 0) > 0
